@@ -25,6 +25,9 @@ where
     <Self as Encoding>::Repr: Default,
 {
     fn decode(rlp: &Rlp<'_>) -> Result<Self, DecoderError> {
+        // `decode_value` accepts the long item form for payloads which must use the short one
+        // (e.g. `b8 01 01`); `payload_info` validates the header strictly.
+        rlp.payload_info()?;
         rlp.decoder().decode_value(|bytes| {
             if bytes.first().cloned() == Some(0) {
                 Err(DecoderError::RlpInvalidIndirection)
